@@ -197,6 +197,7 @@ class W(wire.World):
         self.disc_reason = None
         self.want_app_disconnect = False
         self.window_waiters = []
+        self.sends_across_reconnect = 0
 
     def build(self):
         S = _S
@@ -237,7 +238,13 @@ class W(wire.World):
             if n.tag == "iq" and n["xmlns"] == "w:p":
                 w.probe("pings_sent")
             before = k.switches
-            r = orig_send(node)
+            cc0 = w.net.connect_count
+            try:
+                r = orig_send(node)
+            finally:
+                if w.net.connect_count != cc0:
+                    # this send was on its way down while the next connection was being set up
+                    w.sends_across_reconnect += 1
             if k.switches != before:
                 w.probe("switch_inside_frame")
             return r
@@ -308,7 +315,14 @@ class W(wire.World):
                 try:
                     r.feed(data)
                 except ProtocolViolation as e:
-                    self.violate("C11/socket/%s" % _slug(str(e)), "connection %d: the byte stream reaching the socket is corrupt: %s "
+                    if ses["no"] > 0 and r.rx_frames == 0 and self.sends_across_reconnect and "prologue" in str(e):
+                        # one specific history: a send that had passed the Noise layer with the previous connection's session
+                        # was still on its way down when the next connection came up, and its bytes went to the new socket
+                        # ahead of the prologue (known finding, the C11 face of F34)
+                        sig = "C11/socket/bad-prologue/send-in-flight-across-the-reconnect"
+                    else:
+                        sig = "C11/socket/%s" % _slug(str(e))
+                    self.violate(sig, "connection %d: the byte stream reaching the socket is corrupt: %s "
                                  "(after %d good frames; %d stanzas had entered the coder)" % (ses["no"], e, r.rx_frames, len(self.entered)))
                     ses["ended"] = True
                     net.server_close(conn)
